@@ -59,6 +59,46 @@ Theorem C10_multi_exactly_once : forall n progs sched, let s := fst (mrun sched 
 Proof. exact multi_exactly_once. Qed.
 Print Assumptions C10_multi_exactly_once.
 
+(* MultiPort fan-out (senders on the MultiPort, receivers on the sub-ports), ANY number of sub-ports and threads, ANY programs, ANY schedule:
+   no call raises; each sub-port is given every message exactly once - what it was given is what was popped from it, in order, plus what it
+   still holds; all sub-ports are given the messages in ONE order (that in which the senders got the MultiPort's lock), a sub-port being at most
+   the message of the send in progress behind and not behind at all when no send is in progress; each sender's messages are in that order as
+   it sent them *)
+Require Import Mido.Model.ConcFan Mido.Proofs.ConcFanProofs.
+Theorem C10_fan_no_raise : forall n progs sched t e, fat (snd (frun sched (finit n progs)) t) <> FRaised e.
+Proof. exact fan_no_raise. Qed.
+Print Assumptions C10_fan_no_raise.
+Theorem C10_fan_exactly_once : forall n progs sched, let s := fst (frun sched (finit n progs)) in forall i, fsent s i = map snd (fpopped s i) ++ fq s (S i).
+Proof. exact fan_exactly_once. Qed.
+Print Assumptions C10_fan_exactly_once.
+Theorem C10_fan_all_subports_same_order : forall n progs sched, let s := fst (frun sched (finit n progs)) in
+  forall i, (i < n)%nat -> exists rest, fsent s i ++ rest = map snd (forder s) /\ (length rest <= 1)%nat /\ (flk s 0%nat = None -> rest = []).
+Proof. exact fan_all_subports_same_order. Qed.
+Print Assumptions C10_fan_all_subports_same_order.
+Theorem C10_fan_sender_order : forall n progs sched t, let '(s, ts) := frun sched (finit n progs) in fsends (progs t) = mine t (forder s) ++ fpending (ts t).
+Proof. exact fan_sender_order. Qed.
+Print Assumptions C10_fan_sender_order.
+
+(* "What is received is a copy": objects with identity on a heap, a caller that creates, edits and sends, a port with ANY number of queues
+   (one: EchoPort / IOPort / device; several: MultiPort fan-out, one per sub-port), receivers that pop and edit - for EVERY history:
+   each received object holds the value the sent object had when it was sent (or what its receiver wrote since), each caller object what
+   the caller last wrote, no received object is a caller object, and no two received objects are the same object *)
+Require Import Mido.Model.SendCopy Mido.Proofs.SendCopyProofs.
+Theorem C10_received_is_copy : forall n ops, let s := sc_run true n ops in
+  (map (fun e => sc_hp s (fst e)) (sc_got s) = map snd (sc_got s)) /\
+  (map (fun e => sc_hp s (fst e)) (sc_mine s) = map snd (sc_mine s)) /\
+  (forall e m, In e (sc_got s) -> In m (sc_mine s) -> fst e <> fst m) /\ NoDup (map fst (sc_got s)).
+Proof. exact received_is_copy. Qed.
+Print Assumptions C10_received_is_copy.
+Theorem C10_queued_is_copy : forall n ops, let s := sc_run true n ops in
+  Forall (fun q => map (fun e => sc_hp s (fst e)) q = map snd q) (sc_queues s).
+Proof. exact queued_is_copy. Qed.
+Print Assumptions C10_queued_is_copy.
+(* a port that kept the caller's object: an edit after the send changes what the receiver gets *)
+Theorem C10_alias_refuted : exists n ops, let s := sc_run false n ops in map (fun e => sc_hp s (fst e)) (sc_got s) <> map snd (sc_got s).
+Proof. exact alias_refuted. Qed.
+Print Assumptions C10_alias_refuted.
+
 (* without the lock (a DummyLock on a port whose deque is shared - IOPort.receive before its repair) the property fails: a schedule *)
 Theorem C10_unlocked_refuted : at_ (snd (crun unlocked [0; 0; 0; 1; 1; 2; 2; 1; 2]%nat (cinit race_progs)) 2%nat) = Raised IndexError.
 Proof. exact unlocked_refuted. Qed.
